@@ -174,6 +174,10 @@ pub struct ArgSpec {
     /// declare conflicts / overrides / conditional requirements through the plural builder methods
     #[serde(skip_serializing_if = "is_default")]
     pub plural_builders: bool,
+    /// call every boolean setter twice, first with the opposite value and then with the wanted one (the outcome is the
+    /// same definition, reached through another builder history)
+    #[serde(skip_serializing_if = "is_default")]
+    pub setter_history: bool,
     #[serde(skip_serializing_if = "is_default")]
     pub required_if_eq_any: Vec<(String, String)>,
     #[serde(skip_serializing_if = "is_default")]
@@ -504,39 +508,19 @@ impl ArgSpec {
         if self.allow_hyphen_values {
             a = a.allow_hyphen_values(true);
         }
-        if self.allow_negative_numbers {
-            a = a.allow_negative_numbers(true);
-        }
-        if self.required {
-            a = a.required(true);
-        }
-        if self.exclusive {
-            a = a.exclusive(true);
-        }
+        a = if self.setter_history { a.allow_negative_numbers(!self.allow_negative_numbers).allow_negative_numbers(self.allow_negative_numbers) } else if self.allow_negative_numbers { a.allow_negative_numbers(true) } else { a };
+        a = if self.setter_history { a.required(!self.required).required(self.required) } else if self.required { a.required(true) } else { a };
+        a = if self.setter_history { a.exclusive(!self.exclusive).exclusive(self.exclusive) } else if self.exclusive { a.exclusive(true) } else { a };
         if self.global {
             a = a.global(true);
         }
-        if self.hide {
-            a = a.hide(true);
-        }
-        if self.hide_short_help {
-            a = a.hide_short_help(true);
-        }
-        if self.hide_long_help {
-            a = a.hide_long_help(true);
-        }
-        if self.hide_possible_values {
-            a = a.hide_possible_values(true);
-        }
-        if self.hide_default_value {
-            a = a.hide_default_value(true);
-        }
-        if self.hide_env {
-            a = a.hide_env(true);
-        }
-        if self.hide_env_values {
-            a = a.hide_env_values(true);
-        }
+        a = if self.setter_history { a.hide(!self.hide).hide(self.hide) } else if self.hide { a.hide(true) } else { a };
+        a = if self.setter_history { a.hide_short_help(!self.hide_short_help).hide_short_help(self.hide_short_help) } else if self.hide_short_help { a.hide_short_help(true) } else { a };
+        a = if self.setter_history { a.hide_long_help(!self.hide_long_help).hide_long_help(self.hide_long_help) } else if self.hide_long_help { a.hide_long_help(true) } else { a };
+        a = if self.setter_history { a.hide_possible_values(!self.hide_possible_values).hide_possible_values(self.hide_possible_values) } else if self.hide_possible_values { a.hide_possible_values(true) } else { a };
+        a = if self.setter_history { a.hide_default_value(!self.hide_default_value).hide_default_value(self.hide_default_value) } else if self.hide_default_value { a.hide_default_value(true) } else { a };
+        a = if self.setter_history { a.hide_env(!self.hide_env).hide_env(self.hide_env) } else if self.hide_env { a.hide_env(true) } else { a };
+        a = if self.setter_history { a.hide_env_values(!self.hide_env_values).hide_env_values(self.hide_env_values) } else if self.hide_env_values { a.hide_env_values(true) } else { a };
         if let Some(h) = &self.help {
             a = a.help(h.clone());
         }
@@ -549,9 +533,7 @@ impl ArgSpec {
                 None => a.help_heading(clap::builder::Resettable::Reset),
             };
         }
-        if self.next_line_help {
-            a = a.next_line_help(true);
-        }
+        a = if self.setter_history { a.next_line_help(!self.next_line_help).next_line_help(self.next_line_help) } else if self.next_line_help { a.next_line_help(true) } else { a };
         if let Some(o) = self.display_order {
             a = a.display_order(o);
         }
